@@ -1,7 +1,1221 @@
-//! C24: not implemented yet.
+//! C24: vector distance ordering is exact.
+//!
+//! (a) kernel level: every public distance kernel in `turdb::hnsw::distance` (scalar, AVX2 when the
+//!     CPU has avx2+fma, NEON on aarch64, and the dispatchers) against an f64 reference, for every
+//!     length 0..=70, 127..=130, 255..=257 and 13 input classes, with a rounding bound derived from
+//!     length x f32 epsilon x sum of |terms|.
+//! (b) SQL level: generated VECTOR(d) tables, `ORDER BY v <-> q` / `v <=> q` with and without LIMIT,
+//!     on tables without and with an HNSW index; sub-assertions row_count, row_identity,
+//!     non_decreasing, k_smallest, distance_value, vector_roundtrip.
+use crate::report::{catch, panic_site, Ctx};
+use crate::rng::{fnv, Rng};
 use crate::Args;
+use serde_json::{json, Value};
+use std::collections::{HashMap, HashSet};
+use turdb::hnsw::distance as dist;
+use turdb::hnsw::DistanceFunction;
+use turdb::{Database, OwnedValue};
 
-pub fn run(_a: &Args) -> i32 {
-    println!("INCONCLUSIVE property=C24 reason=check not implemented yet");
-    2
+const EPS: f64 = f32::EPSILON as f64; // 2^-23
+const F32_MAX: f64 = f32::MAX as f64;
+const SUBNORMAL_STEP: f64 = 1.5e-45; // > 2^-149
+
+thread_local! {
+    static SIG_COUNTS: std::cell::RefCell<std::collections::BTreeMap<String, u64>> = std::cell::RefCell::new(Default::default());
+}
+
+/// `ctx.violation` + a per-signature histogram (goes to the evidence as `violation_signature_counts`)
+fn viol(ctx: &mut Ctx, assertion: &str, sig: &str, detail: Value) -> bool {
+    SIG_COUNTS.with(|m| *m.borrow_mut().entry(sig.to_string()).or_insert(0) += 1);
+    ctx.violation(assertion, sig, detail)
+}
+
+/// stable cause string for a caught panic: the std sort's "not a total order" panic is named, any
+/// other panic is keyed by file:line with the toolchain hash removed
+fn panic_cause(p: &str) -> String {
+    if p.contains("does not correctly implement a total order") {
+        return "sort_comparator_not_total_order".to_string();
+    }
+    let site = panic_site(p);
+    if let Some(rest) = site.strip_prefix("/rustc/") {
+        if let Some(i) = rest.find('/') {
+            return format!("std:{}", &rest[i + 1..]);
+        }
+    }
+    site
+}
+
+// ---------------------------------------------------------------------------------------------
+// (a) kernels
+// ---------------------------------------------------------------------------------------------
+
+#[derive(Clone, Copy, PartialEq, Debug)]
+enum Kind {
+    L2Sq,
+    L2,
+    Dot,
+    NegDot,
+    Cos,
+}
+
+struct Kernel {
+    name: &'static str,
+    kind: Kind,
+    vectorised: bool,
+    f: Box<dyn Fn(&[f32], &[f32]) -> f32>,
+}
+
+fn k(name: &'static str, kind: Kind, vectorised: bool, f: impl Fn(&[f32], &[f32]) -> f32 + 'static) -> Kernel {
+    Kernel { name, kind, vectorised, f: Box::new(f) }
+}
+
+fn cpu_avx2_fma() -> bool {
+    #[cfg(target_arch = "x86_64")]
+    {
+        is_x86_feature_detected!("avx2") && is_x86_feature_detected!("fma")
+    }
+    #[cfg(not(target_arch = "x86_64"))]
+    {
+        false
+    }
+}
+
+fn kernels() -> Vec<Kernel> {
+    let simd_dispatch = cpu_avx2_fma() || cfg!(target_arch = "aarch64");
+    let mut v = vec![
+        k("euclidean_squared_scalar", Kind::L2Sq, false, dist::euclidean_squared_scalar),
+        k("euclidean_scalar", Kind::L2, false, dist::euclidean_scalar),
+        k("dot_product_scalar", Kind::Dot, false, dist::dot_product_scalar),
+        k("inner_product_scalar", Kind::NegDot, false, dist::inner_product_scalar),
+        k("cosine_scalar", Kind::Cos, false, dist::cosine_scalar),
+    ];
+    #[cfg(target_arch = "x86_64")]
+    {
+        if cpu_avx2_fma() {
+            // SAFETY: avx2 and fma were detected on this CPU; the slices passed have equal length.
+            v.push(k("euclidean_squared_avx2", Kind::L2Sq, true, |a, b| unsafe { dist::euclidean_squared_avx2(a, b) }));
+            v.push(k("euclidean_avx2", Kind::L2, true, |a, b| unsafe { dist::euclidean_avx2(a, b) }));
+            v.push(k("dot_product_avx2", Kind::Dot, true, |a, b| unsafe { dist::dot_product_avx2(a, b) }));
+            v.push(k("inner_product_avx2", Kind::NegDot, true, |a, b| unsafe { dist::inner_product_avx2(a, b) }));
+            v.push(k("cosine_avx2", Kind::Cos, true, |a, b| unsafe { dist::cosine_avx2(a, b) }));
+        }
+    }
+    #[cfg(target_arch = "aarch64")]
+    {
+        // SAFETY: NEON is always present on aarch64; the slices passed have equal length.
+        v.push(k("euclidean_squared_neon", Kind::L2Sq, true, |a, b| unsafe { dist::euclidean_squared_neon(a, b) }));
+        v.push(k("euclidean_neon", Kind::L2, true, |a, b| unsafe { dist::euclidean_neon(a, b) }));
+        v.push(k("dot_product_neon", Kind::Dot, true, |a, b| unsafe { dist::dot_product_neon(a, b) }));
+        v.push(k("inner_product_neon", Kind::NegDot, true, |a, b| unsafe { dist::inner_product_neon(a, b) }));
+        v.push(k("cosine_neon", Kind::Cos, true, |a, b| unsafe { dist::cosine_neon(a, b) }));
+    }
+    let f = dist::select_distance_fn(DistanceFunction::L2);
+    v.push(k("select_distance_fn(L2)", Kind::L2, simd_dispatch, move |a, b| f(a, b)));
+    let f = dist::select_distance_fn(DistanceFunction::Cosine);
+    v.push(k("select_distance_fn(Cosine)", Kind::Cos, simd_dispatch, move |a, b| f(a, b)));
+    let f = dist::select_distance_fn(DistanceFunction::InnerProduct);
+    v.push(k("select_distance_fn(InnerProduct)", Kind::NegDot, simd_dispatch, move |a, b| f(a, b)));
+    let f = dist::select_squared_distance_fn(DistanceFunction::L2);
+    v.push(k("select_squared_distance_fn(L2)", Kind::L2Sq, simd_dispatch, move |a, b| f(a, b)));
+    let f = dist::select_squared_distance_fn(DistanceFunction::Cosine);
+    v.push(k("select_squared_distance_fn(Cosine)", Kind::Cos, simd_dispatch, move |a, b| f(a, b)));
+    let f = dist::select_squared_distance_fn(DistanceFunction::InnerProduct);
+    v.push(k("select_squared_distance_fn(InnerProduct)", Kind::NegDot, simd_dispatch, move |a, b| f(a, b)));
+    v.push(k("euclidean_squared", Kind::L2Sq, simd_dispatch, dist::euclidean_squared));
+    v
+}
+
+/// exact-enough reference: everything in f64 (inputs are f32, so products are exact in f64 and the
+/// accumulated error is ~n*2^-53 relative to the sum of |terms|, i.e. 2^-29 of the f32 bound)
+struct Reference {
+    l2sq: f64,
+    dot: f64,
+    dot_abs: f64,
+    na: f64,
+    nb: f64,
+}
+
+fn reference(a: &[f32], b: &[f32]) -> Reference {
+    let mut r = Reference { l2sq: 0.0, dot: 0.0, dot_abs: 0.0, na: 0.0, nb: 0.0 };
+    for (x, y) in a.iter().zip(b.iter()) {
+        let (x, y) = (*x as f64, *y as f64);
+        let d = x - y;
+        r.l2sq += d * d;
+        r.dot += x * y;
+        r.dot_abs += (x * y).abs();
+        r.na += x * x;
+        r.nb += y * y;
+    }
+    r
+}
+
+enum Expect {
+    /// reference value and tolerance
+    Within(f64, f64),
+    /// cosine with an (exactly) zero vector: undocumented, no-panic only
+    ZeroVector,
+    /// an f32 intermediate may overflow / lose everything to underflow: no-panic only
+    OutOfDomain,
+}
+
+fn expect(kind: Kind, r: &Reference, n: usize) -> Expect {
+    let nn = n as f64;
+    let abs = (nn + 2.0) * SUBNORMAL_STEP; // underflow of individual products
+    match kind {
+        Kind::L2Sq | Kind::L2 => {
+            if !(r.l2sq <= F32_MAX / 4.0) {
+                return Expect::OutOfDomain;
+            }
+            if kind == Kind::L2Sq {
+                Expect::Within(r.l2sq, 4.0 * (nn + 2.0) * EPS * r.l2sq + abs)
+            } else {
+                let s = r.l2sq.sqrt();
+                Expect::Within(s, 4.0 * (nn + 2.0) * EPS * s + abs.sqrt())
+            }
+        }
+        Kind::Dot | Kind::NegDot => {
+            if !(r.dot_abs <= F32_MAX / 4.0) {
+                return Expect::OutOfDomain;
+            }
+            let v = if kind == Kind::Dot { r.dot } else { -r.dot };
+            Expect::Within(v, 4.0 * (nn + 2.0) * EPS * r.dot_abs + abs)
+        }
+        Kind::Cos => {
+            if r.na == 0.0 || r.nb == 0.0 {
+                return Expect::ZeroVector;
+            }
+            let p = r.na * r.nb;
+            let ok = |x: f64| x >= 1e-25 && x <= 1e36;
+            if !(ok(r.na) && ok(r.nb) && p >= 1e-30 && p <= 1e36) {
+                return Expect::OutOfDomain;
+            }
+            // |err(dot)| <= g_n*sum|a_i b_i| <= g_n*|a||b|; norms carry relative error g_(n+1) each,
+            // so the quotient is off by <= (2n+6)u = (n+3)*EPS absolute; 4*(n+4)*EPS is > 4x that.
+            Expect::Within(1.0 - r.dot / p.sqrt(), 4.0 * (nn + 4.0) * EPS)
+        }
+    }
+}
+
+const NCLASS: u64 = 13;
+const CLASS_NAMES: [&str; 13] = [
+    "zeros", "b_zero", "identical", "small_ints", "uniform", "large", "mixed_magnitude", "subnormal", "adjacent_floats", "one_huge", "cancelling_dot",
+    "all_negative", "tiny_normals",
+];
+
+fn uni(rng: &mut Rng, lo: f64, hi: f64) -> f32 {
+    (lo + (hi - lo) * rng.f64()) as f32
+}
+fn mag(rng: &mut Rng, e_lo: f64, e_hi: f64) -> f32 {
+    let e = e_lo + (e_hi - e_lo) * rng.f64();
+    let s = if rng.chance(1, 2) { -1.0 } else { 1.0 };
+    (s * 10f64.powf(e)) as f32
+}
+fn subn(rng: &mut Rng) -> f32 {
+    let bits = rng.below(0x0080_0000) as u32 | if rng.chance(1, 2) { 0x8000_0000 } else { 0 };
+    f32::from_bits(bits)
+}
+
+fn gen_pair(rng: &mut Rng, n: usize, class: u64) -> (Vec<f32>, Vec<f32>) {
+    let mut a = vec![0f32; n];
+    let mut b = vec![0f32; n];
+    match class {
+        0 => {}
+        1 => {
+            for x in a.iter_mut() {
+                *x = uni(rng, -10.0, 10.0);
+            }
+        }
+        2 => {
+            for i in 0..n {
+                a[i] = mag(rng, -6.0, 6.0);
+                b[i] = a[i];
+            }
+        }
+        3 => {
+            for i in 0..n {
+                a[i] = rng.range(-8, 8) as f32;
+                b[i] = rng.range(-8, 8) as f32;
+            }
+        }
+        4 => {
+            for i in 0..n {
+                a[i] = uni(rng, -1.0, 1.0);
+                b[i] = uni(rng, -1.0, 1.0);
+            }
+        }
+        5 => {
+            for i in 0..n {
+                a[i] = mag(rng, 15.0, 17.0);
+                b[i] = mag(rng, 15.0, 17.0);
+            }
+        }
+        6 => {
+            for i in 0..n {
+                a[i] = mag(rng, -12.0, 12.0);
+                b[i] = mag(rng, -12.0, 12.0);
+            }
+        }
+        7 => {
+            let bz = rng.chance(1, 3);
+            for i in 0..n {
+                a[i] = subn(rng);
+                b[i] = if bz { 0.0 } else { subn(rng) };
+            }
+        }
+        8 => {
+            for i in 0..n {
+                a[i] = uni(rng, -1000.0, 1000.0);
+                let bits = a[i].to_bits();
+                b[i] = match rng.below(3) {
+                    0 => a[i],
+                    1 => f32::from_bits(bits.wrapping_add(1)),
+                    _ => f32::from_bits(bits.wrapping_sub(1)),
+                };
+                if !b[i].is_finite() {
+                    b[i] = a[i];
+                }
+            }
+        }
+        9 => {
+            for i in 0..n {
+                a[i] = uni(rng, -1e-3, 1e-3);
+                b[i] = uni(rng, -1e-3, 1e-3);
+            }
+            if n > 0 {
+                let i = rng.usize(0, n - 1);
+                a[i] = mag(rng, 16.0, 17.0);
+                if rng.chance(1, 2) {
+                    let j = rng.usize(0, n - 1);
+                    b[j] = mag(rng, 16.0, 17.0);
+                }
+            }
+        }
+        10 => {
+            for i in 0..n {
+                a[i] = uni(rng, 1.0, 2.0);
+                b[i] = if i % 2 == 0 { a[i] } else { -a[i] };
+            }
+        }
+        11 => {
+            for i in 0..n {
+                a[i] = uni(rng, -100.0, -1.0);
+                b[i] = uni(rng, -100.0, -1.0);
+            }
+        }
+        _ => {
+            for i in 0..n {
+                a[i] = mag(rng, -30.0, -20.0);
+                b[i] = mag(rng, -30.0, -20.0);
+            }
+        }
+    }
+    (a, b)
+}
+
+fn bits_hash(tag: u64, a: &[f32], b: &[f32]) -> u64 {
+    let mut bytes = Vec::with_capacity(8 + 4 * (a.len() + b.len()));
+    bytes.extend_from_slice(&tag.to_le_bytes());
+    for x in a.iter().chain(b.iter()) {
+        bytes.extend_from_slice(&x.to_bits().to_le_bytes());
+    }
+    fnv(&bytes)
+}
+
+fn kernel_lengths() -> Vec<usize> {
+    let mut v: Vec<usize> = (0..=70).collect();
+    v.extend(127..=130);
+    v.extend(255..=257);
+    v
+}
+
+fn run_kernels(ctx: &mut Ctx, rng: &mut Rng) {
+    let miri = cfg!(miri);
+    let ks = kernels();
+    ctx.extra.insert("kernels_checked".into(), json!(ks.iter().map(|k| k.name).collect::<Vec<_>>()));
+    ctx.extra.insert("cpu_avx2_fma".into(), json!(cpu_avx2_fma()));
+    let reps = if miri { 1 } else if ctx.quick() { 12 } else { 600 };
+    let lengths = kernel_lengths();
+    let any_vectorised = ks.iter().any(|k| k.vectorised);
+    let mut worst: HashMap<&'static str, f64> = HashMap::new(); // max |got-ref|/tol per kernel
+    let mut sampled = 0;
+    for &n in &lengths {
+        for class in 0..NCLASS {
+            if miri && !(class == (n as u64) % NCLASS || class == (n as u64 * 7 + 3) % NCLASS) {
+                continue;
+            }
+            for rep in 0..reps {
+                let (a0, b0) = gen_pair(rng, n, class);
+                // place the data at a random offset in a larger buffer: the vector loads must not
+                // depend on alignment
+                let (oa, ob) = (rng.usize(0, 7), rng.usize(0, 7));
+                let mut bufa = vec![f32::NAN; n + 16];
+                let mut bufb = vec![f32::NAN; n + 16];
+                bufa[oa..oa + n].copy_from_slice(&a0);
+                bufb[ob..ob + n].copy_from_slice(&b0);
+                let a = &bufa[oa..oa + n];
+                let b = &bufb[ob..ob + n];
+                let r = reference(a, b);
+                let h = bits_hash(class, a, b);
+                let mut pair_exercised = false;
+                for kern in &ks {
+                    ctx.eval();
+                    let got = match catch(|| (kern.f)(a, b)) {
+                        Ok(g) => g,
+                        Err(p) => {
+                            viol(ctx, 
+                                "kernel_no_panic",
+                                &format!("C24/kernel_no_panic/{}/{}", kern.name, panic_cause(&p)),
+                                json!({"kernel": kern.name, "n": n, "class": CLASS_NAMES[class as usize], "panic": p, "a": a, "b": b}),
+                            );
+                            continue;
+                        }
+                    };
+                    match expect(kern.kind, &r, n) {
+                        Expect::Within(want, tol) => {
+                            let err = (got as f64 - want).abs();
+                            if !(err <= tol) {
+                                viol(ctx, 
+                                    "kernel_within_rounding",
+                                    &format!("C24/kernel_within_rounding/{}", kern.name),
+                                    json!({"kernel": kern.name, "n": n, "class": CLASS_NAMES[class as usize], "got": format!("{:e}", got), "reference_f64": format!("{:e}", want),
+                                           "abs_err": format!("{:e}", err), "tolerance": format!("{:e}", tol), "a": fmt_vec(a), "b": fmt_vec(b), "offsets": [oa, ob]}),
+                                );
+                            } else {
+                                let ratio = if tol > 0.0 { err / tol } else { 0.0 };
+                                let w = worst.entry(kern.name).or_insert(0.0);
+                                if ratio > *w {
+                                    *w = ratio;
+                                }
+                                // the vector loop runs only for n >= 8 (avx2) / 4 (neon); where no SIMD kernel
+                                // exists on this CPU (e.g. Miri default) the scalar kernels are the mechanism
+                                if (kern.vectorised || !any_vectorised) && n >= 8 {
+                                    pair_exercised = true;
+                                }
+                            }
+                            ctx.count("kernel_compared", 1);
+                        }
+                        Expect::ZeroVector => {
+                            ctx.count("kernel_cosine_zero_vector_nopanic_only", 1);
+                            if got == 1.0 {
+                                ctx.count("kernel_cosine_zero_vector_returned_1.0", 1);
+                            }
+                        }
+                        Expect::OutOfDomain => ctx.count("kernel_out_of_f32_domain_nopanic_only", 1),
+                    }
+                }
+                if pair_exercised {
+                    ctx.nontrivial(h);
+                }
+                if rep == 0 && class == 4 && (n == 13 || n == 64) && sampled < 2 {
+                    sampled += 1;
+                    let outs: Vec<Value> = ks.iter().map(|kk| json!({"kernel": kk.name, "got": (kk.f)(a, b)})).collect();
+                    ctx.sample(json!({"level": "kernel", "n": n, "class": CLASS_NAMES[class as usize], "a": fmt_vec(a), "b": fmt_vec(b),
+                        "reference": {"l2sq": r.l2sq, "dot": r.dot, "cos": 1.0 - r.dot / (r.na * r.nb).sqrt()}, "outputs": outs}));
+                }
+            }
+        }
+    }
+    let mut w: Vec<(String, f64)> = worst.into_iter().map(|(k, v)| (k.to_string(), (v * 1e4).round() / 1e4)).collect();
+    w.sort_by(|a, b| a.0.cmp(&b.0));
+    ctx.extra.insert("kernel_worst_error_over_tolerance".into(), json!(w));
+    oracle_selftest(ctx, rng);
+}
+
+/// The tolerance must not be vacuous: deliberately wrong kernels (own code, not turdb) have to be
+/// rejected by `expect` on ordinary inputs. A mutant that is never rejected makes the run inconclusive.
+fn oracle_selftest(ctx: &mut Ctx, rng: &mut Rng) {
+    let mutants: Vec<(&str, Kind, Box<dyn Fn(&[f32], &[f32]) -> f32>)> = vec![
+        (
+            "l2sq_drops_tail_after_last_full_8_block",
+            Kind::L2Sq,
+            Box::new(|a, b| {
+                let m = a.len() / 8 * 8;
+                dist::euclidean_squared_scalar(&a[..m], &b[..m])
+            }),
+        ),
+        (
+            "dot_counts_first_element_twice",
+            Kind::Dot,
+            Box::new(|a, b| dist::dot_product_scalar(a, b) + if a.is_empty() { 0.0 } else { a[0] * b[0] }),
+        ),
+        ("l2sq_off_by_one_part_in_1000", Kind::L2Sq, Box::new(|a, b| dist::euclidean_squared_scalar(a, b) * 1.001)),
+        ("l2_without_sqrt", Kind::L2, Box::new(|a, b| dist::euclidean_squared_scalar(a, b))),
+        ("cosine_similarity_instead_of_distance", Kind::Cos, Box::new(|a, b| 1.0 - dist::cosine_scalar(a, b))),
+        (
+            "cosine_norm_of_a_misses_last_element",
+            Kind::Cos,
+            Box::new(|a, b| {
+                let n = a.len();
+                let dot = dist::dot_product_scalar(a, b);
+                let na = if n > 0 { dist::dot_product_scalar(&a[..n - 1], &a[..n - 1]) } else { 0.0 };
+                let nb = dist::dot_product_scalar(b, b);
+                1.0 - dot / (na * nb).sqrt()
+            }),
+        ),
+    ];
+    let mut report = vec![];
+    for (name, kind, f) in &mutants {
+        let (mut tried, mut rejected) = (0u64, 0u64);
+        for n in [3usize, 9, 13, 31, 70, 129, 257] {
+            for _ in 0..(if cfg!(miri) { 1 } else { 6 }) {
+                let (a, b) = gen_pair(rng, n, 4);
+                let r = reference(&a, &b);
+                if let Expect::Within(want, tol) = expect(*kind, &r, n) {
+                    tried += 1;
+                    if !((f(&a, &b) as f64 - want).abs() <= tol) {
+                        rejected += 1;
+                    }
+                }
+            }
+        }
+        if rejected == 0 {
+            ctx.inconclusive(&format!("oracle self-test: wrong kernel '{}' was accepted on all {} inputs", name, tried));
+        }
+        report.push(json!({"mutant": name, "inputs": tried, "rejected": rejected}));
+    }
+    ctx.extra.insert("oracle_selftest_wrong_kernels".into(), json!(report));
+}
+
+fn fmt_vec(v: &[f32]) -> Vec<String> {
+    v.iter().map(|x| format!("{:e}", x)).collect()
+}
+
+// ---------------------------------------------------------------------------------------------
+// (b) SQL
+// ---------------------------------------------------------------------------------------------
+
+#[derive(Clone, Copy, PartialEq, Debug)]
+enum Metric {
+    L2,
+    Cos,
+}
+impl Metric {
+    fn op(self) -> &'static str {
+        match self {
+            Metric::L2 => "<->",
+            Metric::Cos => "<=>",
+        }
+    }
+    fn name(self) -> &'static str {
+        match self {
+            Metric::L2 => "l2",
+            Metric::Cos => "cosine",
+        }
+    }
+}
+
+const STYLE_NAMES: [&str; 7] = ["int_grid", "uniform", "clustered_duplicates", "large", "mixed_magnitude", "all_negative", "huge_f32_overflow"];
+const STYLE_HUGE: u64 = 6;
+
+fn gen_component(rng: &mut Rng, style: u64, metric: Metric) -> f32 {
+    match style {
+        0 => rng.range(-3, 3) as f32,
+        1 | 2 => uni(rng, -1.0, 1.0),
+        3 => match metric {
+            Metric::L2 => mag(rng, 10.0, 15.0),
+            Metric::Cos => mag(rng, 5.0, 7.4),
+        },
+        4 => match metric {
+            Metric::L2 => mag(rng, -6.0, 6.0),
+            Metric::Cos => mag(rng, -3.0, 3.0),
+        },
+        5 => uni(rng, -50.0, -0.5),
+        _ => match metric {
+            // squares overflow f32 but the exact distance is a finite f64 (informational class)
+            Metric::L2 => mag(rng, 20.0, 30.0),
+            Metric::Cos => mag(rng, 12.0, 18.0),
+        },
+    }
+}
+
+fn gen_vector(rng: &mut Rng, d: usize, style: u64, metric: Metric) -> Vec<f32> {
+    (0..d).map(|_| gen_component(rng, style, metric)).collect()
+}
+
+struct Table {
+    name: String,
+    d: usize,
+    style: u64,
+    metric: Metric,
+    hnsw: Option<&'static str>, // None | "index_before_insert" | "index_after_insert"
+    rows: Vec<(i64, Vec<f32>)>, // insertion order
+}
+
+fn gen_table(rng: &mut Rng, idx: usize, metric: Metric, hnsw: Option<&'static str>, maxdim: usize, maxrows: usize) -> Table {
+    let d = if idx < maxdim { idx + 1 } else { rng.usize(1, maxdim) };
+    let nrows = rng.usize(1, maxrows);
+    let style = if rng.chance(1, 12) { STYLE_HUGE } else { rng.below(6) };
+    let mut vecs: Vec<Vec<f32>> = Vec::with_capacity(nrows);
+    let centers: Vec<Vec<f32>> = (0..3).map(|_| gen_vector(rng, d, style, metric)).collect();
+    for _ in 0..nrows {
+        let v = if style == 2 {
+            let mut c = rng.pick(&centers).clone();
+            if rng.chance(1, 2) {
+                let i = rng.usize(0, d - 1);
+                c[i] += uni(rng, -0.01, 0.01);
+            }
+            c
+        } else if !vecs.is_empty() && rng.chance(1, 6) {
+            rng.pick(&vecs).clone() // exact duplicate -> tie
+        } else if rng.chance(1, 15) {
+            vec![0.0; d]
+        } else if !vecs.is_empty() && rng.chance(1, 10) {
+            // a permutation / sign flip of an existing vector: often an exact tie w.r.t. symmetric queries
+            let mut c = rng.pick(&vecs).clone();
+            if rng.chance(1, 2) {
+                rng.shuffle(&mut c);
+            } else {
+                for x in c.iter_mut() {
+                    *x = -*x;
+                }
+            }
+            c
+        } else {
+            gen_vector(rng, d, style, metric)
+        };
+        vecs.push(v);
+    }
+    let mut ids: Vec<i64> = Vec::new();
+    let mut seen = HashSet::new();
+    while ids.len() < nrows {
+        let id = rng.range(1, 5000);
+        if seen.insert(id) {
+            ids.push(id);
+        }
+    }
+    Table { name: format!("t{}", idx), d, style, metric, hnsw, rows: ids.into_iter().zip(vecs).collect() }
+}
+
+fn gen_query(rng: &mut Rng, t: &Table) -> Vec<f32> {
+    match rng.below(10) {
+        0 | 1 => rng.pick(&t.rows).1.clone(),
+        2 => match t.metric {
+            Metric::L2 => vec![0.0; t.d],
+            Metric::Cos => {
+                if rng.chance(1, 4) {
+                    vec![0.0; t.d]
+                } else {
+                    vec![1.0; t.d]
+                }
+            }
+        },
+        3 => vec![if t.style == 0 { 0.5 } else { 0.0 }; t.d], // symmetric query: many exact ties on the int grid
+        _ => gen_vector(rng, t.d, t.style, t.metric),
+    }
+}
+
+fn lit(v: &[f32]) -> String {
+    let mut s = String::from("[");
+    for (i, x) in v.iter().enumerate() {
+        if i > 0 {
+            s.push(',');
+        }
+        s.push_str(&format!("{}", x));
+    }
+    s.push(']');
+    s
+}
+
+/// exact distance (f64 over the f32 components); None where SQL yields NULL / is undefined (cosine with a zero vector)
+fn exact(metric: Metric, a: &[f32], q: &[f32]) -> Option<f64> {
+    let r = reference(a, q);
+    match metric {
+        Metric::L2 => Some(r.l2sq.sqrt()),
+        Metric::Cos => {
+            if r.na == 0.0 || r.nb == 0.0 {
+                None
+            } else {
+                Some(1.0 - r.dot / (r.na.sqrt() * r.nb.sqrt()))
+            }
+        }
+    }
+}
+
+/// rounding slack when comparing two exact distances x, y that an f32 implementation may have
+/// computed with the usual (d+2)*eps forward error each
+fn slack(metric: Metric, d: usize, x: f64, y: f64) -> f64 {
+    match metric {
+        Metric::L2 => 4.0 * (d as f64 + 2.0) * EPS * x.abs().max(y.abs()) + 1e-30,
+        Metric::Cos => 4.0 * (d as f64 + 4.0) * EPS,
+    }
+}
+
+struct SqlEnv {
+    root: String,
+    db: Option<Database>,
+    db_no: usize,
+    tables_in_db: usize,
+}
+
+impl SqlEnv {
+    fn db(&mut self) -> Result<&Database, String> {
+        if self.db.is_none() || self.tables_in_db >= 40 {
+            self.db = None;
+            if self.db_no > 0 {
+                let _ = std::fs::remove_dir_all(format!("{}/db{}", self.root, self.db_no - 1));
+            }
+            let path = format!("{}/db{}", self.root, self.db_no);
+            self.db_no += 1;
+            self.tables_in_db = 0;
+            let db = catch(|| Database::create(&path)).map_err(|p| format!("panic {}", p))?.map_err(|e| format!("{}", first_line(&e)))?;
+            self.db = Some(db);
+        }
+        Ok(self.db.as_ref().unwrap())
+    }
+    fn poison(&mut self) {
+        // after a panic inside turdb do not trust this handle any more
+        if let Some(db) = self.db.take() {
+            let _ = catch(move || drop(db));
+        }
+    }
+}
+
+fn first_line(e: &eyre::Report) -> String {
+    let mut s = String::new();
+    for (i, c) in e.chain().enumerate() {
+        if i > 0 {
+            s.push_str(": ");
+        }
+        s.push_str(&c.to_string());
+    }
+    s
+}
+
+fn exec(db: &Database, sql: &str) -> Result<turdb::ExecuteResult, String> {
+    match catch(|| db.execute(sql)) {
+        Ok(Ok(r)) => Ok(r),
+        Ok(Err(e)) => Err(first_line(&e)),
+        Err(p) => Err(format!("PANIC {}", p)),
+    }
+}
+
+fn fam(t: &Table) -> &'static str {
+    if t.hnsw.is_some() {
+        "sql_hnsw"
+    } else {
+        "sql"
+    }
+}
+
+/// build the table; returns false if the case cannot be run (setup failure is reported)
+fn setup_table(ctx: &mut Ctx, env: &mut SqlEnv, t: &Table) -> bool {
+    let f = fam(t);
+    let db = match env.db() {
+        Ok(d) => d,
+        Err(e) => {
+            viol(ctx, "setup", &format!("C24/{}/setup/database_create", f), json!({"err": e}));
+            return false;
+        }
+    };
+    let mut stmts: Vec<String> = vec![format!("CREATE TABLE {} (id BIGINT PRIMARY KEY, v VECTOR({}))", t.name, t.d)];
+    let create_index = format!("CREATE INDEX ix_{} ON {} USING HNSW (v)", t.name, t.name);
+    if t.hnsw == Some("index_before_insert") {
+        stmts.push(create_index.clone());
+    }
+    for (id, v) in &t.rows {
+        stmts.push(format!("INSERT INTO {} (id, v) VALUES ({}, '{}')", t.name, id, lit(v)));
+    }
+    if t.hnsw == Some("index_after_insert") {
+        stmts.push(create_index);
+    }
+    let mut failed: Option<(String, String)> = None;
+    for s in &stmts {
+        if let Err(e) = exec(db, s) {
+            failed = Some((s.clone(), e));
+            break;
+        }
+    }
+    env.tables_in_db += 1;
+    if let Some((s, e)) = failed {
+        let kind = if s.starts_with("CREATE INDEX") {
+            "create_hnsw_index"
+        } else if s.starts_with("CREATE TABLE") {
+            "create_table"
+        } else {
+            "insert"
+        };
+        let panicked = e.starts_with("PANIC");
+        let sig = if panicked {
+            format!("C24/{}/setup/{}/panic/{}", f, kind, panic_cause(&e))
+        } else {
+            format!("C24/{}/setup/{}/error/{}", f, kind, if t.style == STYLE_HUGE { "huge" } else { "regular" })
+        };
+        viol(ctx, "setup", &sig, json!({"statement": truncate(&s, 600), "err": truncate(&e, 600), "d": t.d, "rows": t.rows.len(), "style": STYLE_NAMES[t.style as usize], "hnsw": t.hnsw}));
+        if panicked {
+            env.poison();
+        }
+        return false;
+    }
+    true
+}
+
+fn truncate(s: &str, n: usize) -> String {
+    if s.len() <= n {
+        s.to_string()
+    } else {
+        let mut e = n;
+        while !s.is_char_boundary(e) {
+            e -= 1;
+        }
+        format!("{}...", &s[..e])
+    }
+}
+
+struct QuerySpec {
+    q: Vec<f32>,
+    limit: Option<usize>,
+    cols: u64, // 0: id; 1: id, v; 2: id, v <op> q
+}
+
+fn table_json(t: &Table) -> Value {
+    json!({"table": t.name, "d": t.d, "style": STYLE_NAMES[t.style as usize], "metric": t.metric.name(), "hnsw": t.hnsw,
+           "rows_in_insert_order": t.rows.iter().map(|(id, v)| json!({"id": id, "v": lit(v)})).collect::<Vec<_>>()})
+}
+
+/// run one query and evaluate all sub-assertions; returns true if turdb panicked
+fn check_query(ctx: &mut Ctx, env: &mut SqlEnv, t: &Table, qs: &QuerySpec) -> bool {
+    let f = fam(t);
+    let m = t.metric;
+    let lk = if qs.limit.is_some() { "limit" } else { "nolimit" };
+    let qlit = lit(&qs.q);
+    let cols = match qs.cols {
+        0 => "id".to_string(),
+        1 => "id, v".to_string(),
+        _ => format!("id, v {} '{}'", m.op(), qlit),
+    };
+    let sql = format!(
+        "SELECT {} FROM {} ORDER BY v {} '{}'{}",
+        cols,
+        t.name,
+        m.op(),
+        qlit,
+        match qs.limit {
+            Some(k) => format!(" LIMIT {}", k),
+            None => String::new(),
+        }
+    );
+    let db = match env.db.as_ref() {
+        Some(d) => d,
+        None => return true,
+    };
+    ctx.eval();
+    let huge = t.style == STYLE_HUGE;
+    let rows = match catch(|| db.query(&sql)) {
+        Ok(Ok(r)) => r,
+        Ok(Err(e)) => {
+            viol(ctx, 
+                "query_ok",
+                &format!("C24/{}/query_ok/{}/{}/error{}", f, m.name(), lk, if huge { "/huge" } else { "" }),
+                json!({"sql": truncate(&sql, 1500), "err": truncate(&first_line(&e), 500), "case": table_json(t)}),
+            );
+            return false;
+        }
+        Err(p) => {
+            viol(ctx, 
+                "query_ok",
+                &format!(
+                    "C24/{}/query_ok/{}/{}/panic/{}/{}",
+                    f,
+                    m.name(),
+                    lk,
+                    panic_cause(&p),
+                    if t.rows.iter().any(|(_, v)| exact(m, v, &qs.q).is_none()) { "with_null_keys" } else { "no_null_keys" }
+                ),
+                json!({"sql": truncate(&sql, 1500), "panic": p, "rows_with_undefined_cosine_distance": t.rows.iter().filter(|(_, v)| exact(m, v, &qs.q).is_none()).count(), "case": table_json(t)}),
+            );
+            env.poison();
+            return true;
+        }
+    };
+    let model: HashMap<i64, &Vec<f32>> = t.rows.iter().map(|(id, v)| (*id, v)).collect();
+    let n = t.rows.len();
+    let detail = |extra: Value, got: &[(i64, Option<f64>)]| -> Value {
+        let mut all: Vec<(i64, Option<f64>)> = t.rows.iter().map(|(id, v)| (*id, exact(m, v, &qs.q))).collect();
+        all.sort_by(|a, b| a.1.partial_cmp(&b.1).unwrap_or(std::cmp::Ordering::Equal));
+        json!({"sql": truncate(&sql, 3000), "what": extra,
+               "returned_ids_with_exact_distance": got.iter().map(|(id, d)| json!([id, d])).collect::<Vec<_>>(),
+               "all_ids_sorted_by_exact_distance": all.iter().map(|(id, d)| json!([id, d])).collect::<Vec<_>>(),
+               "case": table_json(t)})
+    };
+
+    // --- row_identity: ids known and distinct
+    let mut got: Vec<(i64, Option<f64>)> = Vec::with_capacity(rows.len());
+    let mut seen = HashSet::new();
+    let mut identity_ok = true;
+    for r in &rows {
+        let id = match r.values.first() {
+            Some(OwnedValue::Int(i)) => *i,
+            other => {
+                viol(ctx, "row_identity", &format!("C24/{}/row_identity/{}/{}/id_not_int", f, m.name(), lk), detail(json!({"value": format!("{:?}", other)}), &got));
+                identity_ok = false;
+                break;
+            }
+        };
+        match model.get(&id) {
+            Some(v) if seen.insert(id) => got.push((id, exact(m, v, &qs.q))),
+            Some(_) => {
+                viol(ctx, "row_identity", &format!("C24/{}/row_identity/{}/{}/duplicate_row", f, m.name(), lk), detail(json!({"id": id}), &got));
+                identity_ok = false;
+                break;
+            }
+            None => {
+                viol(ctx, "row_identity", &format!("C24/{}/row_identity/{}/{}/unknown_row", f, m.name(), lk), detail(json!({"id": id}), &got));
+                identity_ok = false;
+                break;
+            }
+        }
+    }
+    if !identity_ok {
+        return false;
+    }
+
+    // --- row_count
+    let want_rows = qs.limit.map(|k| k.min(n)).unwrap_or(n);
+    if rows.len() != want_rows {
+        viol(ctx, 
+            "row_count",
+            &format!("C24/{}/row_count/{}/{}/{}", f, m.name(), lk, if rows.len() < want_rows { "too_few" } else { "too_many" }),
+            detail(json!({"returned": rows.len(), "expected": want_rows, "table_rows": n, "limit": qs.limit}), &got),
+        );
+    }
+
+    // --- vector_roundtrip / distance_value on the extra column
+    for (r, (id, ex)) in rows.iter().zip(got.iter()) {
+        match qs.cols {
+            1 => {
+                let want = model[id];
+                let ok = matches!(r.values.get(1), Some(OwnedValue::Vector(v)) if v.len() == want.len() && v.iter().zip(want.iter()).all(|(x, y)| x.to_bits() == y.to_bits() || (*x == 0.0 && *y == 0.0)));
+                if !ok {
+                    viol(ctx, 
+                        "vector_roundtrip",
+                        &format!("C24/{}/vector_roundtrip/{}", f, if huge { "huge" } else { "regular" }),
+                        detail(json!({"id": id, "stored": lit(want), "returned": format!("{:?}", r.values.get(1))}), &got),
+                    );
+                    break;
+                }
+            }
+            2 => {
+                if huge {
+                    continue;
+                }
+                match (r.values.get(1), ex) {
+                    (Some(OwnedValue::Float(x)), Some(e)) => {
+                        let tol = slack(m, t.d, *e, *e);
+                        if !((x - e).abs() <= tol) {
+                            viol(ctx, 
+                                "distance_value",
+                                &format!("C24/{}/distance_value/{}/{}/outside_rounding_bound", f, m.name(), lk),
+                                detail(json!({"id": id, "returned": x, "exact": e, "tolerance": tol}), &got),
+                            );
+                            break;
+                        }
+                    }
+                    (Some(OwnedValue::Null), None) => {}
+                    (_, None) => {} // cosine with a zero vector: undocumented, anything goes
+                    (other, Some(e)) => {
+                        viol(ctx, 
+                            "distance_value",
+                            &format!("C24/{}/distance_value/{}/{}/{}", f, m.name(), lk, if other.is_none() { "select_list_expression_column_missing" } else { "not_a_float" }),
+                            detail(json!({"id": id, "returned": format!("{:?}", other), "exact": e, "columns": r.values.len()}), &got),
+                        );
+                        break;
+                    }
+                }
+            }
+            _ => {}
+        }
+    }
+
+    let nulls_in_table = t.rows.iter().filter(|(_, v)| exact(m, v, &qs.q).is_none()).count();
+    if nulls_in_table > 0 {
+        ctx.count(&format!("{}_queries_with_undefined_cosine_rows", f), 1);
+    }
+    if huge {
+        // informational only: f32 squares overflow; behaviour undocumented. Count, never report.
+        let ds: Vec<f64> = got.iter().filter_map(|x| x.1).collect();
+        let mis = nulls_in_table == 0 && ds.windows(2).any(|w| w[0] > w[1] + slack(m, t.d, w[0], w[1]));
+        ctx.count(&format!("{}_huge_queries", f), 1);
+        if mis {
+            if !ctx.extra.contains_key("huge_misordered_example_informational") {
+                ctx.extra.insert("huge_misordered_example_informational".into(), json!({"detail": detail(json!("f32 squares overflow for these components; informational, not a violation"), &got)}));
+            }
+            ctx.count(&format!("{}_huge_queries_misordered_informational", f), 1);
+        }
+        return false;
+    }
+
+    // --- non_decreasing (over rows with a defined distance; position of NULL keys is undocumented)
+    let ds: Vec<(i64, f64)> = got.iter().filter_map(|(id, d)| d.map(|d| (*id, d))).collect();
+    let mut maxd = f64::NEG_INFINITY;
+    let mut maxid = 0i64;
+    let mut distinct_d = 0;
+    let mut ordered = true;
+    for (i, (id, d)) in ds.iter().enumerate() {
+        if i > 0 && maxd > *d + slack(m, t.d, maxd, *d) {
+            viol(ctx, 
+                "non_decreasing",
+                &format!("C24/{}/non_decreasing/{}/{}/{}", f, m.name(), lk, if got.iter().any(|g| g.1.is_none()) { "result_has_null_keys" } else { "no_null_keys" }),
+                detail(json!({"position": i, "id": id, "exact_distance": d, "earlier_id": maxid, "earlier_exact_distance": maxd, "slack": slack(m, t.d, maxd, *d)}), &got),
+            );
+            ordered = false;
+            break;
+        }
+        if *d > maxd {
+            if i > 0 && *d > maxd + slack(m, t.d, maxd, *d) {
+                distinct_d += 1;
+            }
+            maxd = *d;
+            maxid = *id;
+        }
+    }
+
+    // --- k_smallest: sorted returned distances vs the k smallest exact distances, rank by rank
+    let mut ksm = true;
+    if let Some(kq) = qs.limit {
+        if nulls_in_table == 0 && rows.len() == want_rows {
+            let mut all: Vec<f64> = t.rows.iter().filter_map(|(_, v)| exact(m, v, &qs.q)).collect();
+            all.sort_by(|a, b| a.partial_cmp(b).unwrap());
+            let mut r: Vec<(f64, i64)> = ds.iter().map(|(id, d)| (*d, *id)).collect();
+            r.sort_by(|a, b| a.0.partial_cmp(&b.0).unwrap());
+            for j in 0..r.len() {
+                if r[j].0 > all[j] + slack(m, t.d, r[j].0, all[j]) {
+                    viol(ctx, 
+                        "k_smallest",
+                        &format!("C24/{}/k_smallest/{}", f, m.name()),
+                        detail(json!({"k": kq, "rank": j, "returned_id": r[j].1, "returned_exact_distance": r[j].0, "rank_th_smallest_exact_distance": all[j], "slack": slack(m, t.d, r[j].0, all[j])}), &got),
+                    );
+                    ksm = false;
+                    break;
+                }
+            }
+            ctx.count(&format!("{}_k_smallest_checked", f), 1);
+        } else if nulls_in_table > 0 {
+            ctx.count(&format!("{}_k_smallest_skipped_undefined_cosine", f), 1);
+        }
+    }
+    if ordered && ksm && (distinct_d >= 1 || (qs.limit.is_some() && want_rows < n)) {
+        // the sort / top-k really had to order or select something
+        let mut bytes = Vec::new();
+        bytes.extend_from_slice(f.as_bytes());
+        bytes.extend_from_slice(m.name().as_bytes());
+        bytes.extend_from_slice(&(qs.limit.map(|k| k as u64 + 1).unwrap_or(0)).to_le_bytes());
+        for (id, v) in &t.rows {
+            bytes.extend_from_slice(&id.to_le_bytes());
+            for x in v {
+                bytes.extend_from_slice(&x.to_bits().to_le_bytes());
+            }
+        }
+        for x in &qs.q {
+            bytes.extend_from_slice(&x.to_bits().to_le_bytes());
+        }
+        ctx.nontrivial(fnv(&bytes));
+    }
+    ctx.count(&format!("{}_queries_{}_{}", f, m.name(), lk), 1);
+    false
+}
+
+fn run_sql(ctx: &mut Ctx, rng: &mut Rng, budget_s: f64) {
+    let quick = ctx.quick();
+    let root = format!("/verif/scratch/c24-{}", std::process::id());
+    let _ = std::fs::remove_dir_all(&root);
+    if let Err(e) = std::fs::create_dir_all(&root) {
+        ctx.inconclusive(&format!("cannot create scratch dir {}: {}", root, e));
+        return;
+    }
+    let mut env = SqlEnv { root: root.clone(), db: None, db_no: 0, tables_in_db: 0 };
+    let ntables = if quick { 280 } else { 4000 };
+    let nqueries = if quick { 6 } else { 10 };
+    let t0 = ctx.elapsed();
+    let mut explains: Vec<Value> = vec![];
+    let mut tables_done = 0u64;
+    let mut sampled = [false; 2];
+    for idx in 0..ntables {
+        if ctx.elapsed() - t0 > budget_s {
+            ctx.count("sql_stopped_by_time_budget", 1);
+            break;
+        }
+        let metric = if rng.chance(1, 2) { Metric::L2 } else { Metric::Cos };
+        let hnsw = match idx % 4 {
+            0 | 1 => None,
+            2 => Some("index_before_insert"),
+            _ => Some("index_after_insert"),
+        };
+        // dimension sweep 1..=70 first (idx/4 so both families see every dimension), then random
+        let mut t = gen_table(rng, idx / 4, metric, hnsw, 70, 60);
+        t.name = format!("t{}", idx);
+        if !setup_table(ctx, &mut env, &t) {
+            continue;
+        }
+        tables_done += 1;
+        ctx.count(&format!("{}_tables", fam(&t)), 1);
+        for qi in 0..nqueries {
+            let q = gen_query(rng, &t);
+            let n = t.rows.len();
+            let limit = match qi % 3 {
+                0 => None,
+                1 => Some(rng.usize(1, n.max(1))),
+                _ => {
+                    let r = rng.usize(1, 10);
+                    Some(*rng.pick(&[1usize, 2, n.saturating_sub(1).max(1), n, n + 3, r]))
+                }
+            };
+            let qs = QuerySpec { q, limit, cols: rng.below(3) };
+            // record the plan for the first tables of each family
+            if qi < 2 && explains.len() < 8 && (idx < 4 || (idx >= 280 && idx < 284)) {
+                if let Some(db) = env.db.as_ref() {
+                    let sql = format!(
+                        "EXPLAIN VERBOSE SELECT id FROM {} ORDER BY v {} '{}'{}",
+                        t.name,
+                        t.metric.op(),
+                        lit(&qs.q),
+                        qs.limit.map(|k| format!(" LIMIT {}", k)).unwrap_or_default()
+                    );
+                    let plan = match exec(db, &sql) {
+                        Ok(turdb::ExecuteResult::Explain { plan }) => plan,
+                        Ok(_) => "(not an Explain result)".to_string(),
+                        Err(e) => format!("EXPLAIN failed: {}", truncate(&e, 300)),
+                    };
+                    let lower = plan.to_lowercase();
+                    let plan_part = lower.split("table info").next().unwrap_or("").to_string();
+                    if t.hnsw.is_some() {
+                        ctx.count("sql_hnsw_explained", 1);
+                        if plan_part.contains("hnsw") || plan_part.contains("indexscan") || plan_part.contains("index scan") {
+                            ctx.count("sql_hnsw_explained_plan_uses_index", 1);
+                        }
+                    }
+                    explains.push(json!({"family": fam(&t), "hnsw": t.hnsw, "sql": truncate(&sql, 200), "plan": plan}));
+                }
+            }
+            let panicked = check_query(ctx, &mut env, &t, &qs);
+            if panicked {
+                break;
+            }
+            let si = if t.hnsw.is_some() { 1 } else { 0 };
+            if !sampled[si] && qi == 1 && idx >= 8 && t.rows.len() <= 6 && t.d <= 6 {
+                sampled[si] = true;
+                ctx.sample(json!({"level": fam(&t), "limit": qs.limit, "q": lit(&qs.q), "case": table_json(&t)}));
+            }
+        }
+        // dropping keeps the directory small; failure to drop is not this property's business
+        if let Some(db) = env.db.as_ref() {
+            let _ = exec(db, &format!("DROP TABLE {}", t.name));
+        }
+    }
+    ctx.count("sql_tables_total", tables_done);
+    ctx.extra.insert("explain_samples".into(), json!(explains));
+    env.db = None;
+    let _ = std::fs::remove_dir_all(&root);
+}
+
+/// `tv C24 sqlprobe "<stmt>" ...`: run statements on a fresh scratch database and print the results
+/// (used to minimise reproductions); `tv C24 --replay <violation.json>` rebuilds the table of a
+/// recorded SQL violation and re-runs its query.
+fn sql_probe(stmts: &[String]) -> i32 {
+    let root = format!("/verif/scratch/c24-{}", std::process::id());
+    let _ = std::fs::remove_dir_all(&root);
+    let _ = std::fs::create_dir_all("/verif/scratch");
+    let db = match Database::create(&root) {
+        Ok(d) => d,
+        Err(e) => {
+            println!("create failed: {}", first_line(&e));
+            return 2;
+        }
+    };
+    for s in stmts {
+        println!("-- {}", truncate(s, 400));
+        let up = s.trim_start().to_uppercase();
+        if up.starts_with("SELECT") {
+            match catch(|| db.query(s)) {
+                Ok(Ok(rows)) => {
+                    for r in rows {
+                        println!("   {:?}", r.values);
+                    }
+                }
+                Ok(Err(e)) => println!("   ERR {}", first_line(&e)),
+                Err(p) => println!("   PANIC {}", p),
+            }
+        } else {
+            match exec(&db, s) {
+                Ok(turdb::ExecuteResult::Explain { plan }) => println!("{}", plan),
+                Ok(_) => println!("   ok"),
+                Err(e) => println!("   ERR {}", e),
+            }
+        }
+    }
+    drop(db);
+    let _ = std::fs::remove_dir_all(&root);
+    0
+}
+
+fn replay(path: &str) -> i32 {
+    let txt = match std::fs::read_to_string(path) {
+        Ok(t) => t,
+        Err(e) => {
+            println!("cannot read {}: {}", path, e);
+            return 2;
+        }
+    };
+    let v: Value = match serde_json::from_str(&txt) {
+        Ok(v) => v,
+        Err(e) => {
+            println!("bad json: {}", e);
+            return 2;
+        }
+    };
+    let case = &v["detail"]["case"];
+    let (table, d) = match (case["table"].as_str(), case["d"].as_u64()) {
+        (Some(t), Some(d)) => (t.to_string(), d),
+        _ => {
+            println!("replay file has no SQL case (kernel violations carry their inputs in detail.a / detail.b)");
+            return 2;
+        }
+    };
+    let mut stmts = vec![format!("CREATE TABLE {} (id BIGINT PRIMARY KEY, v VECTOR({}))", table, d)];
+    let ix = format!("CREATE INDEX ix_{} ON {} USING HNSW (v)", table, table);
+    if case["hnsw"].as_str() == Some("index_before_insert") {
+        stmts.push(ix.clone());
+    }
+    for r in case["rows_in_insert_order"].as_array().cloned().unwrap_or_default() {
+        stmts.push(format!("INSERT INTO {} (id, v) VALUES ({}, '{}')", table, r["id"], r["v"].as_str().unwrap_or("")));
+    }
+    if case["hnsw"].as_str() == Some("index_after_insert") {
+        stmts.push(ix);
+    }
+    stmts.push(v["detail"]["sql"].as_str().unwrap_or("").trim_end_matches("...").to_string());
+    println!("replaying {} ({})", path, v["sig"].as_str().unwrap_or(""));
+    sql_probe(&stmts)
+}
+
+pub fn run(a: &Args) -> i32 {
+    let miri = cfg!(miri);
+    if !miri {
+        if a.rest.first().map(|s| s.as_str()) == Some("sqlprobe") {
+            return sql_probe(&a.rest[1..]);
+        }
+        if let Some(p) = &a.replay {
+            return replay(p);
+        }
+    }
+    let mut ctx = Ctx::new(
+        "C24",
+        &a.tier,
+        a.seed,
+        "exploration",
+        "kernel level: every pub kernel of hnsw::distance (scalar, AVX2 when avx2+fma detected, dispatchers, euclidean_squared) on vector pairs of every length 0..=70,127..=130,255..=257 x 13 input classes (zeros, one zero, identical, small ints, uniform, large 1e15..1e17, mixed magnitude, subnormals, adjacent floats, one huge component, cancelling dot, all negative, tiny normals), at random slice alignments, compared with an f64 reference within 4*(n+2)*eps_f32*sum|terms| (+ underflow term); cosine with a zero vector and f32-overflowing inputs: no-panic only. A kernel case = (pair, kernel). SQL level: VECTOR(d) tables d=1..70 (swept), 1..60 rows, 7 value styles incl. zero vectors, exact duplicates, permuted/sign-flipped copies; ORDER BY v <-> q / v <=> q with no LIMIT / LIMIT k (k from 1 to n+3), three projections; families sql (no index) and sql_hnsw (HNSW index created before or after the inserts). A SQL case = one query. distinct_nontrivial = distinct vector pairs of length >= 8 (so the 8-lane loop ran) on which a SIMD kernel/dispatcher was compared within tolerance + SQL queries (hash of table, query, limit) in which at least two distinct exact distances had to be ordered or LIMIT had to cut rows",
+    );
+    let mut rng = Rng::derive(a.seed, 24);
+    run_kernels(&mut ctx, &mut rng);
+    if !miri {
+        let budget = if ctx.quick() { 40.0 } else { 400.0 };
+        run_sql(&mut ctx, &mut rng, budget);
+    } else {
+        ctx.assumptions.push("under Miri only the kernel level runs (no files/mmap)".into());
+    }
+    ctx.assumptions.push("cosine distance with an exactly zero vector is undocumented (kernels return 1.0, SQL yields NULL): only no-panic/row_count are checked, the position of such rows in the ordering is not constrained, and k_smallest is skipped for queries whose table contains such a row".into());
+    ctx.assumptions.push("inputs whose f32 intermediates overflow (sum of squares > f32::MAX/4; cosine norms outside [1e-25,1e36]) are exercised for no-panic only; SQL style huge_f32_overflow is counted as information, never reported".into());
+    ctx.assumptions.push("ordering slack: two rows may appear in either order if their exact distances differ by less than 4*(d+2)*eps_f32*max(dist) (L2) or 4*(d+4)*eps_f32 (cosine), i.e. what a correct sort over f32-computed keys can produce".into());
+    let counts = SIG_COUNTS.with(|m| m.borrow().clone());
+    ctx.extra.insert("violation_signature_counts".into(), json!(counts));
+    ctx.assumptions.push("'regardless of CPU': native runs call scalar kernels, AVX2 kernels and the AVX2 dispatch; Miri default runs the scalar dispatch; Miri with +avx2,+fma runs the AVX2 kernels under the interpreter".into());
+    ctx.finish()
 }
